@@ -40,7 +40,9 @@ EXPLANATION = (
     "object handed out); R-%(p)s-94 an optional parameter of the same name has the same default in all public methods of "
     "a class (cycles(..., failure_probability=0.5) / load(..., failure_probability=0.5)); R-%(p)s-95 a method that accepts an "
     "option and calls another method of its object accepting the same option passes it on (rtol / tol / failure_probability not "
-    "silently replaced by the callee's default).")
+    "silently replaced by the callee's default); R-%(p)s-96 a public function or method does not write into an argument "
+    "(augmented assignment, item / attribute store, out=, inplace=True on the parameter or an np.asarray view of it; a parameter "
+    "that is re-bound in the function is exempt) - the same array handed over twice must give the same result twice.")
 
 
 def anchored_modules(prog, prop):
@@ -182,6 +184,76 @@ def dropped_options(prog, fi):
     return out
 
 
+# ------------------------------------------------------------------------------------------------ R-xx-96
+ACCEPTED_ARG_WRITES = {
+    ("pylife.materialdata.woehler.bayesian", "perform", "outputs"): "pytensor Op contract: perform() writes its result into outputs",
+    ("pylife.strength.fkm_load_distribution", "gamma_L", "input_parameters"): "fills in the default of an option in the caller's parameter set (documented behaviour of the FKM functions)",
+    ("pylife.strength.meanstress", "fkm_goodman", "haigh_fkm_goodman"): "adds the derived column M2 to the caller's table (observation of DESIGN section 4, no clause of C12)",
+}
+
+
+def argument_writes(fi):
+    """[(stmt, parameter, how)] for a PUBLIC function / method"""
+    if fi.name.startswith("_") or (fi.cls is not None and fi.cls.name.startswith("_")):
+        return []
+    a = fi.node.args
+    params = [x.arg for x in a.posonlyargs + a.args + a.kwonlyargs if x.arg not in ("self", "cls")]
+    if not params:
+        return []
+    aliases = {p: p for p in params}
+    rebound = set()
+    for st in walk_function(fi.node):
+        if isinstance(st, ast.Assign):
+            for t in st.targets:
+                for n in ast.walk(t):
+                    if isinstance(n, ast.Name) and isinstance(n.ctx, ast.Store) and n.id in params:
+                        rebound.add(n.id)
+        elif isinstance(st, (ast.For, ast.With)):
+            for n in ast.walk(st.target if isinstance(st, ast.For) else ast.Tuple(elts=[i.optional_vars for i in st.items if i.optional_vars is not None])):
+                if isinstance(n, ast.Name) and n.id in params:
+                    rebound.add(n.id)
+    for st in walk_function(fi.node):
+        if isinstance(st, ast.Assign) and len(st.targets) == 1 and isinstance(st.targets[0], ast.Name):
+            v = st.value
+            while isinstance(v, ast.Call) and (call_name(v) or "") in ("np.asarray", "np.asanyarray", "np.atleast_1d", "np.ravel") and v.args and \
+                    not any(k.arg == "dtype" for k in v.keywords):
+                v = v.args[0]
+            if isinstance(v, ast.Name) and v.id in aliases and st.targets[0].id not in params:
+                aliases[st.targets[0].id] = aliases[v.id]
+    out = []
+
+    def live(name):
+        return name in aliases and aliases[name] not in rebound
+    for st in walk_function(fi.node):
+        if isinstance(st, ast.AugAssign):
+            base = st.target
+            while isinstance(base, (ast.Subscript, ast.Attribute)):
+                base = base.value
+            if isinstance(base, ast.Name) and live(base.id):
+                out.append((st, aliases[base.id], "augmented assignment"))
+        elif isinstance(st, ast.Assign):
+            for t in st.targets:
+                base = t
+                while isinstance(base, (ast.Subscript, ast.Attribute)):
+                    base = base.value
+                if base is not t and isinstance(base, ast.Name) and live(base.id):
+                    out.append((st, aliases[base.id], "item / attribute store"))
+        for c in ast.walk(st) if isinstance(st, (ast.Expr, ast.Assign, ast.Return, ast.AugAssign)) else []:
+            if isinstance(c, ast.Call):
+                for k in c.keywords:
+                    if k.arg == "out" and isinstance(k.value, ast.Name) and live(k.value.id):
+                        out.append((st, aliases[k.value.id], "out="))
+                    if k.arg == "inplace" and isinstance(k.value, ast.Constant) and k.value.value is True and \
+                            isinstance(c.func, ast.Attribute) and isinstance(c.func.value, ast.Name) and live(c.func.value.id):
+                        out.append((st, aliases[c.func.value.id], "inplace=True"))
+    seen, res = set(), []
+    for st, p, how in out:
+        if (id(st), p) not in seen:
+            seen.add((id(st), p))
+            res.append((st, p, how))
+    return res
+
+
 # ------------------------------------------------------------------------------------------------ R-xx-92
 def vectorize_without_otypes(fn_node):
     out = []
@@ -206,6 +278,9 @@ def selftest():
     if not tolerance.selfcheck():
         raise AnalysisError("absolute-tolerance helper: built-in example not matched")
     statefam.selftest()
+    p3 = statefam.mini("def f(x, y, z, out=None):\n    x *= 2\n    v = np.asarray(y)\n    v[0] = 1\n    z = np.array(z)\n    z += 1\n    return x\n")
+    if len(argument_writes(p3.functions["ex:f"])) != 2:
+        raise AnalysisError("common rule families: argument-write example not matched")
     p = statefam.mini(_EX2)
     if len(sibling_defaults(p.classes["ex:W"])) != 1 or len(dropped_options(p, p.functions["ex:W.cycles"])) != 1:
         raise AnalysisError("common rule families: default / option example not matched")
@@ -220,7 +295,7 @@ def run(ctx, prop):
     classes = [ci for k, ci in sorted(prog.classes.items()) if ci.module.name in names]
     if not funcs:
         raise AnalysisError("no function found in the anchored modules of %s" % prop)
-    r90, r91, r92, r93, r94, r95 = ("R-%s-%d" % (prop, i) for i in (90, 91, 92, 93, 94, 95))
+    r90, r91, r92, r93, r94, r95, r96 = ("R-%s-%d" % (prop, i) for i in (90, 91, 92, 93, 94, 95, 96))
     # ---- 90
     ctx.rule(r90, floor=1, what="no new absolute tolerance on data in the anchored files")
     n_acc = 0
@@ -294,3 +369,14 @@ def run(ctx, prop):
             ctx.violated(fi, c, "%s accepts `%s` and calls self.%s, which accepts it too, without passing it: the callee works with its "
                          "own default whatever the caller was given" % (fi.qualname, p, callee), text="option %s dropped in %s" % (p, fi.qualname), rule=r95)
     ctx.holds(prop + ":anchored files", None, "%d functions scanned" % len(funcs), rule=r95)
+    # ---- 96
+    ctx.rule(r96, floor=1, what="public functions do not write into their arguments")
+    n_acc = 0
+    for fi in funcs:
+        for st, p, how in argument_writes(fi):
+            if (fi.module.name, fi.name, p) in ACCEPTED_ARG_WRITES:
+                n_acc += 1
+                continue
+            ctx.violated(fi, st, "%s writes into its argument `%s` (%s: %s): the caller's object is changed, a second call with the same "
+                         "object works on other data" % (fi.qualname, p, how, norm_text(st)[:60]), text="write into argument %s of %s" % (p, fi.qualname), rule=r96)
+    ctx.holds(prop + ":anchored files", None, "%d functions scanned, %d accepted instance(s)" % (len(funcs), n_acc), rule=r96)
